@@ -23,10 +23,10 @@ PROPS = [("PROPERTY", "EdgeOK"), ("PROPERTY", "NoEchoStore"), ("PROPERTY", "T7Sa
          ("PROPERTY", "SilentAfterClose"), ("PROPERTY", "ChainOK"), ("INVARIANT", "FinalAgrees"), ("INVARIANT", "FinalAgrees0")]
 
 
-def write_cfg(path, consts, extra_lines, view=True):
+def write_cfg(path, consts, extra_lines, view=True, design=None):
     with open(path, "w") as f:
         f.write("SPECIFICATION Spec\nCONSTANTS\n")
-        for k, v in {**consts, **DESIGN}.items():
+        for k, v in {**consts, **(design or DESIGN)}.items():
             f.write("  %s = %s\n" % (k, v))
         if view:
             f.write("VIEW View\n")
@@ -120,7 +120,7 @@ def run(ctx):
             sfaults += 1
             continue
         sig = "c05:stale:%s:%s" % (why, d["role"])
-        ctx.violation("an abandoned receive goroutine of the previous generation disturbed the Selected successor (%s): %s" % (sig, common.short(d, 500)),
+        ctx.violation("something of the previous generation (abandoned receive goroutine / T7 dwell timer) disturbed its successor (%s): %s" % (sig, common.short(d, 500)),
                       dict(binding="B2 gated e2e (blocked handler across a bounded teardown)", signature=sig, observation=d))
     if sfaults > sres["lines"] // 2:
         raise common.Inconclusive("stale-generation scenarios could not be set up (%d of %d)" % (sfaults, sres["lines"]))
@@ -136,13 +136,21 @@ def run(ctx):
                    samples=[p for p in paths[:2]] + [dict(id=p["id"], src=p["src"], actions=[s["a"] for s in p["steps"]]) for p in paths[-2:]],
                    exhaustive=False, checker_cmd="tlc MC_Supervisor (exhaustive + -simulate); vh c05; tlc TraceE37")
     ctx.assumptions += ["environment of impl/Supervisor.tla: one commit in flight at a time, a generation's TCP-up only after the "
-                        "previous generation's events drained, stale disconnects filtered by the transports (MaxStale=0)",
+                        "previous generation's events drained, stale disconnects filtered by the transports (MaxStale=0), a T7 timer "
+                        "armed for generation N never fires into generation N+1 -- the last two are observed end to end (vh stale: "
+                        "blocked handler across a bounded teardown; generation N ended just before its T7, successor must get its full dwell)",
                         "interleavings inside a critical section (between two hooks/gates) are not explored"]
 
 
 def selftest(ctx):
     """Flip one recorded State() and one notification; the acceptor must reject exactly those traces."""
     work = common.stage_spec(os.path.join(ctx.tmp, "spec-sup"))
+    # the model discriminates: without the repair of finding F1 (LostGuard) NoEchoStore has a counterexample, with it none
+    write_cfg(os.path.join(work, "asfound.cfg"), CONSTS["quick"], ["PROPERTY NoEchoStore"], design=dict(DESIGN, LostGuard="FALSE"))
+    r = common.run_tlc(work, "MC_Supervisor", cfg="asfound.cfg", workers=8, timeout=900)
+    common.log("as-found variant (LostGuard = FALSE): NoEchoStore", "violated" if r["prop"] else "NOT violated")
+    if not r["prop"]:
+        return False
     write_cfg(os.path.join(work, "sim.cfg"), CONSTS["quick"], [], view=False)
     simdir = os.path.join(ctx.tmp, "sim"); os.makedirs(simdir)
     common.run_tlc(work, "MC_Supervisor", cfg="sim.cfg", workers=1, timeout=300,
